@@ -409,6 +409,7 @@ def bell_gen(ctx, res, parb):
     ok = bad = 0
     probs = []
     nuse = 0
+    nsingle = 0
     for lf in lv:
         r = lf.ret
         if r is None or r is TOP or sp.sympify(r) == 0:
@@ -416,12 +417,19 @@ def bell_gen(ctx, res, parb):
         ff = final_fields(dom, lf)
         if S('t') not in ff or S('tv') not in ff:
             continue
-        # only the limit-reached family (cruise phase planned before the bisection): tv is the closed form, not 0
-        if sp.sympify(ff[S('tv')]) == 0:
+        # the limit-reached family (cruise phase planned before the bisection: tv is the closed form, not 0) and the exits of the FIRST
+        # pass of the acceleration search with unclamped velocities (both phases at the limit, acceleration only, deceleration only)
+        single = sp.sympify(ff[S('tv')]) == 0
+        if single and not (str(ff.get(S('v0'))) == 'v0_' and str(ff.get(S('v1'))) == 'v1_'):
             continue
-        nuse += 1
-        if nuse > 40:
-            break
+        if single:
+            nsingle += 1
+            if nsingle > (24 if ctx.tier == 'thorough' else 12):
+                continue
+        else:
+            nuse += 1
+            if nuse > 40:
+                continue
         rev = any(isinstance(c, alg.Cond) and c.rel() == '>' and str(c.a) == 'p0_' and str(c.b) == 'p1_' for c in lf.pc)
         for f in ('a_trajbell_pos', 'a_trajbell_vel', 'a_trajbell_acc'):
             fn2, dom2, lv2 = res[f]
@@ -439,7 +447,7 @@ def bell_gen(ctx, res, parb):
                     ok += 1
                 else:
                     bad += 1
-                    probs.append('%s discontinuous at %s on planning path %s' % (f, b, str(lf.pc)[:100]))
+                    probs.append('%s discontinuous at %s on %s planning path %s' % (f, b, 'the first-pass exit' if single else 'the limit-reached', str(lf.pc)[-160:] if single else str(lf.pc)[:100]))
     # J3: the constant-acceleration sub-phases have non-negative length because the planning branch's own guard says so
     j3 = []
     nj3 = 0
@@ -492,7 +500,7 @@ def bell_gen(ctx, res, parb):
     if nuse == 0:
         rep.unk('J2', 'a_trajbell_gen', 'no limit-reached planning path found')
     elif probs:
-        rep.bad('J2', 'a_trajbell_gen[limit-reached]', '; '.join(sorted(set(probs))[:2])[:600], loc=loc, key='a_trajbell_gen: continuity')
+        rep.bad('J2', 'a_trajbell_gen[planning paths]', '; '.join(sorted(set(probs))[:2])[:600], loc=loc, key='a_trajbell_gen: continuity')
     else:
-        rep.ok('J2', 'a_trajbell_gen[limit-reached]', 'pos/vel/acc continuous at all %d phase boundaries on %d planning paths (%d equations, modulo sqrt relations)'
-               % (len(bounds), nuse, ok), loc=loc)
+        rep.ok('J2', 'a_trajbell_gen[planning paths]', 'pos/vel/acc continuous at all %d phase boundaries on %d limit-reached planning paths and %d first-pass exits of the acceleration search (%d equations, modulo sqrt relations)'
+               % (len(bounds), min(nuse, 40), nsingle, ok), loc=loc)
